@@ -1,6 +1,7 @@
 import AITB.Model.Proto
 import AITB.Model.Experience
 import AITB.Model.ExperienceCfg
+import AITB.Model.ExperienceKeyed
 import AITB.Gen.Constants
 open AITB AITB.Exp
 
@@ -390,12 +391,349 @@ def sethist : P String := do
   P.eof
   pure st.v.render
 
+/-! ## the factored classes at the level of their own API (`AITB.Model.ExperienceKeyed`, `AITB.Props.C07Keyed`)
+
+    C07 coophist S[] A[] nf×(agents[] features[][]) sizes[nf] <junk> <nops> { op }
+      r s[nf] a[na] s1[nf] rews[nf] | ids[nf]  nf × (cnt[S_i] N mean M2 — the row ids[i] the call reports)  ts
+      s s a                         | nf × (j row[S_i] rew)            sync(s,a); j = the library's own getId
+      x s a ids[nf]                 | nf × (row[S_i] rew)              sync(indeces)
+      S | nf × size_i × (row rew)        c b | same        R | nf × size_i × (cnt N mean M2) ts
+      q s a s1 | P R Rvec[nf]            getTransitionProbability / getExpectedReward / getExpectedRewards
+      E | nf × size_i × exp, ts, hasModel, [nf × size_i × mod]
+    C07 fbhist A[] deps[][] sizes[nb] <nops> { op }
+      r a[na] rews[nb] | ids[nb]  nb × (N mean M2 at ids[i])  ts          R | nb × size_i × (N mean M2) ts       E | same
+
+    `diff`: the implementation differs from the Lean model run with the Lean index functions (`DDNGraph.getId`, `toIndexPartial`);
+    `fail`: its numbers differ from the statistics of the records with the same CONTEXT (compared as value lists, no index). -/
+
+abbrev Key := List Nat × List Nat
+
+structure KTab where
+  expC : String
+  modC : String
+  w : Nat
+  size : Nat                 -- number of rows the implementation reports
+  idx : Key → Nat
+  ctx : Key → Key
+  world : World
+  /-- specification state per context: `AITB.Exp.Oracle` (proved equal to the ghost of the context projection: `oracle_sound`) -/
+  oracle : Oracle Key
+  /-- context → the model row of the first key seen with that context (only used to attribute the rows of whole-table dumps) -/
+  rows : List (Key × Nat)
+
+def KTab.step (cfg : Cfg) (t : KTab) (op : KOp Key) : KTab :=
+  let rows := match op.key? with
+    | some k => if t.rows.any (fun e => e.1 == t.ctx k) then t.rows else t.rows ++ [(t.ctx k, t.idx k)]
+    | none => t.rows
+  { t with world := t.world.step cfg (op.toOp t.idx), oracle := t.oracle.step t.ctx op, rows := rows }
+
+def KTab.ghostOf (t : KTab) (k : Key) : Ghost := t.oracle.ghostOf (t.ctx k)
+
+def KTab.ghostAtRow (t : KTab) (j : Nat) : Ghost :=
+  match t.rows.find? (fun e => e.2 == j) with
+  | some e => t.oracle.ghostOf e.1
+  | none => t.oracle.fresh
+
+def KTab.pair (t : KTab) (j : Nat) : Pair := t.world.pairs.getD j default
+
+def expDiff (v : Verdict) (comp loc : String) (j : Nat) (o : ExpObs) (p : Pair) : Verdict :=
+  let v := v.diffIf (o.cnt != p.cnt || o.n != p.cell.n) s!"{comp} visits {loc} row={j} model={p.cnt}/{p.cell.n} impl={o.cnt}/{o.n}"
+  let v := v.diffIf (!(xClose o.mean p.cell.mean)) s!"{comp} reward {loc} row={j} model={ratStr p.cell.mean} impl={showX o.mean}"
+  v.diffIf (!(xClose o.m2 p.cell.m2)) s!"{comp} M2 {loc} row={j} model={ratStr p.cell.m2} impl={showX o.m2}"
+
+def expClause (v : Verdict) (comp loc : String) (w j : Nat) (o : ExpObs) (g : Ghost) (hv : Bool) : Verdict :=
+  let v := v.failIf (o.n != g.recs.length) s!"{comp} visitsSum_not_record_count_of_context {loc} row={j} impl={o.n} records={g.recs.length}"
+  if hv then
+    let v := v.failIf (o.cnt != (List.range w).map (fun k => countS1 k g.recs)) s!"{comp} visits_not_record_count_of_context {loc} row={j} impl={o.cnt} want={(List.range w).map (fun k => countS1 k g.recs)}"
+    let v := v.failIf (!(xClose o.mean (meanOf g.recs))) s!"{comp} mean_not_empirical_of_context {loc} row={j} impl={showX o.mean} want={ratStr (meanOf g.recs)}"
+    v.failIf (!(xClose o.m2 (sqDevOf g.recs))) s!"{comp} m2_not_sum_sq_dev_of_context {loc} row={j} impl={showX o.m2} want={ratStr (sqDevOf g.recs)}"
+  else v
+
+def modDiff (v : Verdict) (comp loc : String) (w j : Nat) (o : ModObs) (p : Pair) : Verdict :=
+  let rowBad := (List.range w).any (fun k => !(xClose (o.row.getD k .nan) (nthQ p.row k)))
+  let v := v.diffIf rowBad s!"{comp} row {loc} row={j} model={p.row.map ratStr} impl={o.row.map showX}"
+  v.diffIf (!(xClose o.rew p.rew)) s!"{comp} reward {loc} row={j} model={ratStr p.rew} impl={showX o.rew}"
+
+def modClause (v : Verdict) (comp loc : String) (w j : Nat) (o : ModObs) (g : Ghost) : Verdict :=
+  let bad := (List.range w).any (fun k => !(xClose (o.row.getD k .nan) (specRow w 0 g k)))
+  if g.snap.isEmpty then
+    let v := v.failIf bad s!"{comp} unvisited_row_not_default {loc} row={j} impl={o.row.map showX}"
+    v.failIf (!(xClose o.rew 0)) s!"{comp} unvisited_reward_not_zero {loc} row={j} impl={showX o.rew}"
+  else
+    let v := v.failIf bad s!"{comp} row_not_frequency_of_context {loc} row={j} impl={o.row.map showX} want={(List.range w).map (fun k => ratStr (freqOf g.snap k))}"
+    v.failIf (!(xClose o.rew (meanOf g.snap))) s!"{comp} reward_not_mean_of_context {loc} row={j} impl={showX o.rew} want={ratStr (meanOf g.snap)}"
+
+structure CSt where
+  g : AITB.Factored.DDNGraph
+  cfg : Cfg
+  tabs : List KTab
+  ts : Nat
+  opIdx : Nat
+  v : Verdict
+  nRec : Nat := 0
+  nSync : Nat := 0
+  nQuery : Nat := 0
+  nReset : Nat := 0
+  outside : Bool := false      -- a call with arguments outside their spaces was seen (the theorems' hypothesis `FOp.WF` fails)
+
+def CSt.apply (st : CSt) (op : FOp) : CSt :=
+  { st with tabs := mapIdxFrom (fun i (t : KTab) => t.step st.cfg (op.toKOp i)) 0 st.tabs,
+            outside := st.outside || !(op.validB st.g),
+            ts := (match op with | .record .. => st.ts + 1 | .reset => 0 | _ => st.ts), opIdx := st.opIdx + 1 }
+
+def CSt.world (st : CSt) : CoopWorld := { ts := st.ts, tables := st.tabs.map (·.world) }
+
+/-- fold over the tables with their index -/
+def foldTabs {α} (tabs : List KTab) (xs : List α) (v : Verdict) (f : Verdict → Nat → KTab → α → Verdict) : Verdict :=
+  ((tabs.zip xs).foldl (fun (acc : Verdict × Nat) tx => (f acc.1 acc.2 tx.1 tx.2, acc.2 + 1)) (v, 0)).1
+
+def pTabs {α} (tabs : List KTab) (p : KTab → P α) : P (List α) :=
+  tabs.foldlM (fun acc t => do let x ← p t; pure (acc ++ [x])) []
+
+/-- whole-table dumps: every row against the model and against the specification state of the context that owns it -/
+def dumpExp (st : CSt) (site : String) (last : Bool) : P CSt := do
+  let obs ← pTabs st.tabs (fun t => P.rep (pExp t.w) t.size)
+  let v := foldTabs st.tabs obs st.v (fun v i t os =>
+    ((os.foldl (fun (acc : Verdict × Nat) o =>
+      let j := acc.2
+      let g := t.ghostAtRow j
+      let v := expDiff acc.1 s!"{t.expC}.{site}" s!"feature={i}" j o (t.pair j)
+      (expClause v s!"{t.expC}.{site}" s!"feature={i}" t.w j o g (heavy g.recs.length st.opIdx last), j + 1)) (v, 0))).1)
+  pure { st with v := v }
+
+def dumpMod (st : CSt) (site : String) : P CSt := do
+  let obs ← pTabs st.tabs (fun t => P.rep (pMod t.w) t.size)
+  let v := foldTabs st.tabs obs st.v (fun v i t os =>
+    ((os.foldl (fun (acc : Verdict × Nat) o =>
+      let j := acc.2
+      let v := modDiff acc.1 s!"{t.modC}.{site}" s!"feature={i}" t.w j o (t.pair j)
+      (modClause v s!"{t.modC}.{site}" s!"feature={i}" t.w j o (t.ghostAtRow j), j + 1)) (v, 0))).1)
+  pure { st with v := v }
+
+def coopOp (st : CSt) : P CSt := do
+  let nf := st.g.S.length
+  let na := st.g.A.length
+  let t ← P.tok
+  match t with
+  | "r" => do
+      let s ← P.rep P.nat nf; let a ← P.rep P.nat na; let s1 ← P.rep P.nat nf; let rews ← P.rep P.q nf
+      let ids ← P.rep P.nat nf
+      let obs ← pTabs st.tabs (fun t => pExp t.w)
+      let ts ← P.nat
+      let st := st.apply (.record s a s1 rews)
+      let want := coopIds st.g s a
+      let v := st.v.diffIf (ids != want) s!"CooperativeExperience.record returned_indeces model={want} impl={ids}"
+      let v := foldTabs st.tabs (obs.zip ids) v (fun v i t oj =>
+        let (o, j) := oj
+        let g := t.ghostOf (s, a)
+        let v := expDiff v s!"CooperativeExperience.record" s!"feature={i}" j o (t.pair j)
+        expClause v s!"CooperativeExperience.record" s!"feature={i}" t.w j o g (heavy g.recs.length st.opIdx false))
+      let v := v.failIf (ts != st.ts) s!"CooperativeExperience.record timesteps_not_record_count impl={ts} want={st.ts}"
+      pure { st with v := v, nRec := st.nRec + 1 }
+  | "s" => do
+      let s ← P.rep P.nat nf; let a ← P.rep P.nat na
+      let obs ← pTabs st.tabs (fun t => do let j ← P.nat; let o ← pMod t.w; pure (j, o))
+      let st := st.apply (.syncSA s a)
+      let v := foldTabs st.tabs obs st.v (fun v i t jo =>
+        let (j, o) := jo
+        let v := v.diffIf (j != t.idx (s, a)) s!"DDNGraph.getId feature={i} model={t.idx (s, a)} impl={j}"
+        let v := modDiff v s!"{t.modC}.syncSA" s!"feature={i}" t.w j o (t.pair j)
+        modClause v s!"{t.modC}.syncSA" s!"feature={i}" t.w j o (t.ghostOf (s, a)))
+      pure { st with v := v, nSync := st.nSync + 1 }
+  | "x" => do
+      let s ← P.rep P.nat nf; let a ← P.rep P.nat na; let ids ← P.rep P.nat nf
+      let obs ← pTabs st.tabs (fun t => pMod t.w)
+      let st := st.apply (.syncIdx ids s a)
+      let v := foldTabs st.tabs (obs.zip ids) st.v (fun v i t oj =>
+        let (o, j) := oj
+        let v := modDiff v s!"{t.modC}.syncIndeces" s!"feature={i}" t.w j o (t.pair j)
+        modClause v s!"{t.modC}.syncIndeces" s!"feature={i}" t.w j o (t.ghostOf (s, a)))
+      pure { st with v := v, nSync := st.nSync + 1 }
+  | "S" => do
+      let st := st.apply .syncAll
+      dumpMod { st with nSync := st.nSync + 1 } "sync"
+  | "c" => do
+      let b ← P.bool
+      let st := st.apply (.ctor b)
+      dumpMod st (if b then "ctorSync" else "ctorNoSync")
+  | "R" => do
+      let st := st.apply .reset
+      let st ← dumpExp st "reset" false
+      let ts ← P.nat
+      pure { st with v := st.v.failIf (ts != 0) s!"CooperativeExperience.reset timesteps_not_zero impl={ts}", nReset := st.nReset + 1 }
+  | "q" => do
+      let s ← P.rep P.nat nf; let a ← P.rep P.nat na; let s1 ← P.rep P.nat nf
+      let pr ← P.x; let rw ← P.x; let rv ← P.rep P.x nf
+      let cw := st.world
+      let modC := (st.tabs.head?.map (·.modC)).getD ""
+      let v := st.v.diffIf (!(xClose pr (coopTransProb st.g cw s a s1))) s!"{modC}.getTransitionProbability model={ratStr (coopTransProb st.g cw s a s1)} impl={showX pr}"
+      let v := v.diffIf (!(xClose rw (coopExpReward st.g cw s a))) s!"{modC}.getExpectedReward model={ratStr (coopExpReward st.g cw s a)} impl={showX rw}"
+      -- the specification: product of the spec rows of the contexts of (s,a), sum of their spec rewards
+      let wantP := ((st.tabs.zip (List.range nf)).foldl (fun (acc : Rat) ti => acc * specRow ti.1.w 0 (ti.1.ghostOf (s, a)) (s1.getD ti.2 0)) 1)
+      let wantRs := st.tabs.map (fun t => let g := t.ghostOf (s, a); if g.snap.isEmpty then (0 : Rat) else meanOf g.snap)
+      let wantR := wantRs.foldl (· + ·) 0
+      let v := v.failIf (!(xClose pr wantP)) s!"{modC}.getTransitionProbability joint_probability_not_product_of_context_frequencies s={s} a={a} s1={s1} impl={showX pr} want={ratStr wantP}"
+      let v := v.failIf (!(xClose rw wantR)) s!"{modC}.getExpectedReward expected_reward_not_sum_of_context_means s={s} a={a} impl={showX rw} want={ratStr wantR}"
+      let v := v.failIf ((rv.zip wantRs).any (fun xw => !(xClose xw.1 xw.2))) s!"{modC}.getExpectedRewards expected_rewards_not_context_means s={s} a={a} impl={rv.map showX} want={wantRs.map ratStr}"
+      pure { st with v := v, nQuery := st.nQuery + 1, opIdx := st.opIdx + 1 }
+  | "E" => do
+      let st ← dumpExp st "final" true
+      let ts ← P.nat
+      let st := { st with v := st.v.failIf (ts != st.ts) s!"CooperativeExperience.final timesteps_not_record_count impl={ts} want={st.ts}" }
+      let hm ← P.bool
+      if hm then dumpMod st "final" else pure st
+  | _ => P.fail
+
+def pDDN : P AITB.Factored.DDNGraph := do
+  let S ← P.nats; let A ← P.nats
+  let ps ← P.rep (do let ag ← P.nats; let fs ← P.natss; pure ({ agents := ag, features := fs } : AITB.Factored.ParentSet)) S.length
+  pure { S := S, A := A, parents := ps }
+
+def coophist : P String := do
+  let g ← pDDN
+  let nf := g.S.length
+  let sizes ← P.rep P.nat nf
+  let thompson ← P.bool        -- rows come from CooperativeThompsonModel? (reserved, always 0)
+  let _ := thompson
+  let junk ← P.q; let nops ← P.nat
+  let cfg := cfgPlain junk
+  let tabs := (List.range nf).map (fun i =>
+    ({ expC := "CooperativeExperience", modC := "CooperativeMaximumLikelihoodModel", w := g.S.getD i 0, size := sizes.getD i 0,
+       idx := coopIdx g i, ctx := ctxOf g i, world := World.init (g.getSize i) (g.S.getD i 0) (fun _ => 0), oracle := Oracle.init, rows := [] } : KTab))
+  let v0 : Verdict := {}
+  let v0 := v0.diffIf (sizes != (List.range nf).map g.getSize) s!"DDNGraph.getSize model={(List.range nf).map g.getSize} impl={sizes}"
+  -- the graph was accepted by the library's `push`: it must satisfy what the theorems assume (`parentsOKB_iff`)
+  let v0 := v0.failIf (!((List.range nf).all (parentsOKB g))) s!"DDNGraph.push accepted_malformed_parent_set"
+  let st0 : CSt := { g := g, cfg := cfg, tabs := tabs, ts := 0, opIdx := 0, v := v0 }
+  let rec loop : Nat → CSt → P CSt
+    | 0, st => pure st
+    | n+1, st => do let st' ← coopOp st; loop n st'
+  let st ← loop nops st0
+  P.eof
+  let multi := g.parents.any (fun p => p.agents.length ≥ 2)
+  let tag := "coophist" ++ (if nops ≤ 2 then " trivial" else "") ++ (if multi then " multiagent" else "") ++ (if st.nReset > 0 then " reset" else "")
+             ++ (if st.nQuery > 0 then " query" else "")
+  if st.outside && st.v.fails.isEmpty then pure "skip arguments_outside_documented_precondition"
+  else pure ({ st.v with tag := tag }).render
+
+/-- `C07 coopq <component> <graph> sizes[nf] nf×size_i×(row[S_i] rew) nq { q s a R Rvec[nf] full K K×(s1[nf] P) }`
+    what a cooperative learned model answers against what it exposes: `getTransitionProbability(s,a,s1)` must be the product of its
+    own rows `getId(i,s,a)` (Lean index), `getExpectedReward` the sum of its own rewards; every exposed row a distribution; when all
+    joint next states were queried they sum to one (`coop_joint_of_rows`, `coop_joint_is_distribution`, `coop_thompson_joint_valid`). -/
+def coopq : P String := do
+  let comp ← P.tok
+  let g ← pDDN
+  let nf := g.S.length
+  let na := g.A.length
+  let sizes ← P.rep P.nat nf
+  let tabs ← (List.range nf).foldlM (fun (acc : List (List ModObs)) i => do
+      let t ← P.rep (pMod (g.S.getD i 0)) (sizes.getD i 0); pure (acc ++ [t])) []
+  let nq ← P.nat
+  let v0 : Verdict := { tag := "coopq" }
+  let v0 := v0.diffIf (sizes != (List.range nf).map g.getSize) s!"DDNGraph.getSize model={(List.range nf).map g.getSize} impl={sizes}"
+  -- every exposed row is a distribution, every reward finite
+  let v0 := ((tabs.zip (List.range nf)).foldl (fun (v : Verdict) ti =>
+    ((ti.1.foldl (fun (acc : Verdict × Nat) o =>
+      let v := acc.1
+      let allFin := o.row.all xFin
+      let qs := o.row.map (fun x => match x with | .fin q => q | _ => 0)
+      let v := v.failIf (!allFin) s!"{comp} row_not_finite feature={ti.2} row={acc.2}"
+      let v := v.failIf (allFin && qs.any (fun q => decide (q < 0))) s!"{comp} row_negative_entry feature={ti.2} row={acc.2}"
+      let v := v.failIf (allFin && !(decide (AITB.Exp.absQ (sumQ qs - 1) ≤ tol))) s!"{comp} row_sum_not_one feature={ti.2} row={acc.2} sum={ratStr (sumQ qs)}"
+      let v := v.failIf (!(xFin o.rew)) s!"{comp} reward_not_finite feature={ti.2} row={acc.2}"
+      (v, acc.2 + 1)) (v, 0))).1) v0)
+  let cell := fun (i j k : Nat) => match ((tabs.getD i []).getD j ⟨[], .nan⟩).row.getD k .nan with | .fin q => q | _ => (0 : Rat)
+  let rewAt := fun (i j : Nat) => match ((tabs.getD i []).getD j ⟨[], .nan⟩).rew with | .fin q => q | _ => (0 : Rat)
+  let rec loop : Nat → Verdict → P Verdict
+    | 0, v => pure v
+    | n+1, v => do
+        P.lit "q"
+        let s ← P.rep P.nat nf; let a ← P.rep P.nat na
+        let rw ← P.x; let rv ← P.rep P.x nf
+        let full ← P.bool; let k ← P.nat
+        let qs ← P.rep (do let s1 ← P.rep P.nat nf; let p ← P.x; pure (s1, p)) k
+        let ids := (List.range nf).map (fun i => g.getId i s a)
+        let wantRs := (List.range nf).map (fun i => rewAt i (ids.getD i 0))
+        let v := v.failIf (!(xClose rw (wantRs.foldl (· + ·) 0))) s!"{comp}.getExpectedReward expected_reward_not_sum_of_exposed_rewards s={s} a={a} impl={showX rw} want={ratStr (wantRs.foldl (· + ·) 0)}"
+        let v := v.failIf ((rv.zip wantRs).any (fun xw => !(xClose xw.1 xw.2))) s!"{comp}.getExpectedRewards expected_rewards_not_exposed_rewards s={s} a={a}"
+        let v := qs.foldl (fun (v : Verdict) sp =>
+          let want := (List.range nf).foldl (fun (acc : Rat) i => acc * cell i (ids.getD i 0) (sp.1.getD i 0)) 1
+          let v := v.failIf (!(xClose sp.2 want)) s!"{comp}.getTransitionProbability joint_probability_not_product_of_exposed_rows s={s} a={a} s1={sp.1} impl={showX sp.2} want={ratStr want}"
+          v.failIf (match sp.2 with | .fin q => decide (q < 0) | _ => true) s!"{comp}.getTransitionProbability joint_probability_negative_or_not_finite s={s} a={a} s1={sp.1}") v
+        let tot := qs.foldl (fun (acc : Rat) sp => acc + (match sp.2 with | .fin q => q | _ => 0)) 0
+        let v := v.failIf (full && !(decide (AITB.Exp.absQ (tot - 1) ≤ tol))) s!"{comp}.getTransitionProbability joint_distribution_not_normalised s={s} a={a} sum={ratStr tot}"
+        loop n v
+  let v ← loop nq v0
+  P.eof
+  pure v.render
+
+/-- Factored::Bandit::Experience -/
+def fbOp (A : List Nat) (st : CSt) : P CSt := do
+  let nb := st.tabs.length
+  let t ← P.tok
+  match t with
+  | "r" => do
+      let a ← P.rep P.nat A.length; let rews ← P.rep P.q nb
+      let ids ← P.rep P.nat nb
+      let obs ← pTabs st.tabs (fun _ => pExp 0)
+      let ts ← P.nat
+      let tabs := mapIdxFrom (fun i (t : KTab) => t.step st.cfg (fbRecord i a rews |> fun (k : KOp (List Nat)) =>
+        match k with | .record a' s1 r => (KOp.record (([] : List Nat), a') s1 r : KOp Key) | _ => .reset)) 0 st.tabs
+      let st := { st with tabs := tabs, ts := st.ts + 1, opIdx := st.opIdx + 1 }
+      let want := st.tabs.map (fun t => t.idx ([], a))
+      let v := st.v.diffIf (ids != want) s!"Factored::Bandit::Experience.record returned_indeces model={want} impl={ids}"
+      let v := foldTabs st.tabs (obs.zip ids) v (fun v i t oj =>
+        let (o, j) := oj
+        let g := t.ghostOf ([], a)
+        let v := expDiff v s!"Factored::Bandit::Experience.record" s!"basis={i}" j o (t.pair j)
+        expClause v s!"Factored::Bandit::Experience.record" s!"basis={i}" 0 j o g (heavy g.recs.length st.opIdx false))
+      let v := v.failIf (ts != st.ts) s!"Factored::Bandit::Experience.record timesteps_not_record_count impl={ts} want={st.ts}"
+      pure { st with v := v, nRec := st.nRec + 1 }
+  | "R" => do
+      let st := { st with tabs := st.tabs.map (fun t => t.step st.cfg .reset), ts := 0, opIdx := st.opIdx + 1 }
+      let st ← dumpExp st "reset" false
+      let ts ← P.nat
+      pure { st with v := st.v.failIf (ts != 0) s!"Factored::Bandit::Experience.reset timesteps_not_zero impl={ts}", nReset := st.nReset + 1 }
+  | "E" => do
+      let st ← dumpExp st "final" true
+      let ts ← P.nat
+      pure { st with v := st.v.failIf (ts != st.ts) s!"Factored::Bandit::Experience.final timesteps_not_record_count impl={ts} want={st.ts}" }
+  | _ => P.fail
+
+def fbhist : P String := do
+  let A ← P.nats; let deps ← P.natss
+  let tags ← P.natss; let depsOut ← P.natss; let aOut ← P.nats
+  let sizes ← P.rep P.nat deps.length
+  let nops ← P.nat
+  let cfg := cfgPlain 0
+  let tabs := (deps.zip sizes).map (fun ds =>
+    ({ expC := "Factored::Bandit::Experience", modC := "none", w := 0, size := ds.2,
+       idx := fun k => fbIdx A ds.1 k.2, ctx := fun k => (fbCtx ds.1 k.2, []),
+       world := World.init (AITB.Factored.spacePartial ds.1 A) 0 (fun _ => 0), oracle := Oracle.init, rows := [] } : KTab))
+  let want := deps.map (fun d => AITB.Factored.spacePartial d A)
+  let v0 : Verdict := {}
+  let v0 := v0.diffIf (sizes != want) s!"factorSpacePartial model={want} impl={sizes}"
+  -- the object must keep statistics for exactly the dependency sets and action space it was given
+  let v0 := v0.failIf (tags != deps) s!"Factored::Bandit::Experience.ctor basis_tag_not_dependency impl={tags} want={deps}"
+  let v0 := v0.failIf (depsOut != deps || aOut != A) s!"Factored::Bandit::Experience.ctor reported_dependencies_or_action_space_differ impl={depsOut}/{aOut}"
+  let st0 : CSt := { g := { S := [], A := A, parents := [] }, cfg := cfg, tabs := tabs, ts := 0, opIdx := 0, v := v0 }
+  let rec loop : Nat → CSt → P CSt
+    | 0, st => pure st
+    | n+1, st => do let st' ← fbOp A st; loop n st'
+  let st ← loop nops st0
+  P.eof
+  let tag := "fbhist" ++ (if nops ≤ 2 then " trivial" else "") ++ (if st.nReset > 0 then " reset" else "")
+  pure ({ st.v with tag := tag }).render
+
 def handle (toks : List String) : String :=
   let r := match toks with
     | "hist" :: rest => P.run hist rest
     | "thompson" :: rest => P.run thompson rest
     | "tsync" :: rest => P.run tsync rest
     | "sethist" :: rest => P.run sethist rest
+    | "coophist" :: rest => P.run coophist rest
+    | "fbhist" :: rest => P.run fbhist rest
+    | "coopq" :: rest => P.run coopq rest
     | _ => none
   r.getD "bad-op"
 
